@@ -25,7 +25,7 @@ PortLists == { <<>>, <<[name |-> "http", proto |-> "tcp", port |-> 80]>>,
                  [name |-> "http", proto |-> "tcp", port |-> 8080], [name |-> "dns", proto |-> "udp", port |-> 53]>> }
 LabelPool == { <<>>, [a |-> "x"] }
 ParentLabelPool == { <<>>, [a |-> "x"], [a |-> "y"] }
-ParentSeqs == { <<>> } \cup { <<p>> : p \in Parents } \cup { <<p, p>> : p \in Parents }   \* also a profile listed twice
+ParentSeqs == { <<>> } \cup { <<p>> : p \in Parents } \cup { <<p, q>> : p, q \in Parents }   \* also a profile listed twice
 CTab == [x |-> <<"x">>, y |-> <<"y">>]
 
 SelPool == << [op |-> "all"], [op |-> "eq", k |-> "a", v |-> "x"], [op |-> "not", a |-> [op |-> "has", k |-> "a"]] >>
